@@ -631,7 +631,7 @@ def run(ctx, objdir, fixed):
         if k is not None:
             ecases.append(k)
             ctx.case(key=("e2e-fixed", "os._exit", lib), tags=["e2e:fixed-os._exit", "e2e:lib:" + lib])
-    nprog = ctx.n(6, 80)
+    nprog = ctx.n(6, 55)
     for pi in range(nprog):
         prog = gen_program(rng)
         w.write(prog)
